@@ -100,7 +100,7 @@ theorem sound_proofs (ty o : Nat) : ∀ b rs bps bpps r, proofsDec ty o b = some
         obtain ⟨x, r1, h1, h2⟩ := bind_some h
         obtain ⟨he, rfl⟩ := pure_some h2
         simp at he; obtain ⟨rfl, rfl, rfl⟩ := he
-        have c := sound_sized 6176 id (takeN 6176) (sound_takeN 6176) _ _ _ _ h1
+        have c := sound_sized sizes.rangesig id (takeN 6176) (sound_takeN 6176) _ _ _ _ h1
         subst c; simp [encProofs, h45, h3, h6]
 
 theorem sound_clsag (m : Nat) : Sound encClsag (clsagDec m) := by
